@@ -28,10 +28,8 @@ _re_ident = re.compile(r'''(?x)
     [^\W\d]\w*  # alphanumeric identifier
 ''')
 
-_re_ident_or_num = re.compile(r'''(?x)
-    [^\W\d]\w*  # alphanumeric identifier
-    |
-    ([1-9]\d* | 0)  # purely integer identifier
+_re_num = re.compile(r'''(?x)
+    ([1-9][0-9]* | 0)  # purely integer identifier
 ''')
 
 
@@ -87,8 +85,13 @@ def needs_quoting(string: str, allow_reserved: bool, allow_num: bool) -> bool:
         # require quoting
         return False
 
-    r = _re_ident_or_num if allow_num else _re_ident
-    isalnum = r.fullmatch(string)
+    isalnum = (
+        # The lexer wants a letter or an underscore first; "[^\W\d]" also
+        # admits numeric characters that are not decimal digits (e.g. "\xb2").
+        (_re_ident.fullmatch(string)
+         and (string[0] == '_' or string[0].isalpha()))
+        or (allow_num and _re_num.fullmatch(string))
+    )
 
     string = string.lower()
 
